@@ -38,7 +38,7 @@ Qed.
 Theorem ok_C03_accepts_model e : wf_event e = true -> ok_C03 (event_fields e) (run_EV (event_fields e)) = [].
 Proof.
   intros Hw. destruct (roundtrip e Hw) as [Hd [He Ha]].
-  unfold run_EV, ok_C03. rewrite event_of_fields, Hd, parse_show_packet, parse_show_dec_val.
+  unfold run_EV, ok_C03. rewrite event_of_fields, Hd, parse_show_packet, Hw, parse_show_dec_val. cbn [negb].
   rewrite list_eqb_refl, He, Ha, N.eqb_refl. reflexivity.
 Qed.
 
